@@ -1,4 +1,5 @@
 import LitexModel.Wishbone.SramNum
+import LitexModel.Wishbone.ToCsrBank
 open Litex Litex.Driver Litex.WbMem
 
 /-
@@ -13,6 +14,7 @@ open Litex Litex.Driver Litex.WbMem
   open up_sram    <nbm> <cbits> <depth> <aw> <ro> <burst> <init words...>      UpConverter over SRAM
   open cache_sram <cache params (8)> <depth> <aw> <init words...>              Cache over SRAM
   open remap_sram <remap params> ; <depth> <init words...>
+  open wb2csr_bank <nb> <register> <shift> <caw> <bank: bw ord pbits address nregs reg*>   Wishbone2CSR over CSRBank (C12 model)
 -/
 
 def regionsOf : List Nat → List RemapRegion
@@ -61,6 +63,11 @@ def openNums (name : String) (p : List Nat) (hin hout : IO.FS.Stream) : Option (
       let sc : SramCfg := { nb := nb, depth := depth, aw := saw, readOnly := false, burst := false }
       some (serve (slaveNum nb ((remapper c).over (sram sc (bytesOfWords nb init)))) hin hout)
     | _ => none
+  | "wb2csr_bank", nb :: reg :: shift :: caw :: bankp =>
+    match Litex.Csr.parseBank bankp with
+    | some (b, _) =>
+      some (serve (wb2csrBankNum { nb := nb, register := n2b reg, shift := shift, caw := caw } b) hin hout)
+    | none => none
   | _, _ => none
 
 def openMachine (args : List String) (hin hout : IO.FS.Stream) : Option (IO Bool) :=
